@@ -150,7 +150,8 @@ CLAIMS.update({
              'callback), R-MOVEOUT (the shared value is moved only under GetRef()==1 / below the kSharedRefNoFuture '
              'threshold; factories create the right initial counts), R-CONSTOBS (const observers and shared-attached '
              'continuations read as const), R-CONNECT, R-NODISCARD, R-NODEREUSE (one callback object on at most one '
-             'shared core). The interleaving behaviour is not decided.',
+             'shared core), R-AFTERRELEASE (an observer touches the shared core only while it still owns the '
+             'reference it gives back). The interleaving behaviour is not decided.',
         technique='typestate / guard-dominance rules per CFG path over all instantiations + role table',
         design='4/C06'),
     'C13': dict(
@@ -173,8 +174,14 @@ CLAIMS.update({
         text='Protocol/orders/CAS kinds of _state, _readers_wait and the spinlock word; R-LOCKSET (queue fields only '
              'under the spinlock, released exactly once per path, coroutines resumed with it released) over all entry '
              'points with SlowUnlock/RunWriter/RunReaders inlined; R-TRYSHARED; R-CONST (bit-field constants and the '
-             'armed reader amount). Reader/writer exclusion and liveness for all arrival orders are not decided.',
-        technique='lockset dataflow per CFG path with helper inlining + role table + constant agreement',
+             'armed reader amount); R-INV: the queue accounting (writers list length vs writer count, _writers_prio vs '
+             'writers ahead of the first queued reader, _readers_size, tail pointer, reader credits, every unlinked '
+             'writer resumed or armed, no underflow) is proved to be an inductive invariant of every entry over '
+             'linear abstract values. Reader/writer exclusion over interleavings of the lock-free entries and liveness '
+             'under continuous arrival are not decided.',
+        technique='lockset dataflow per CFG path with helper inlining + role table + constant agreement + abstract '
+                  'interpretation of the critical sections over linear expressions (inductive-invariant check, '
+                  'proofs by enumeration of linear combinations; no solver)',
         design='4/C15'),
     'C16': dict(
         text='Protocol/orders of OneShotEvent::_head and the counter; R-READY (event and attached futures), R-LINEAR (Set '
@@ -189,7 +196,8 @@ CLAIMS.update({
 CLAIMS.update({
     'C11': dict(
         text='R-WAITRETURN over every WaitRange instantiation (timed/untimed, unique/shared, variadic/iterator): after '
-             'the reset pass a return happens only when every registration was withdrawn / the counter reached zero, '
+             'the reset pass a return happens only when every registration was withdrawn / the waiter\'s own '
+             'subtraction of a provably positive amount reached zero, '
              'or after the untimed wait returned, so no producer can touch the returned stack frame; R-COUNTER '
              '(inputs+1, count-wait_count+1); R-WITHDRAW (Reset never replaces the result sentinel); R-EVENT '
              '(MutexEvent lock discipline, notify under the mutex, re-test after wake-up, predicate timed waits); '
@@ -211,7 +219,8 @@ CLAIMS.update({
              '(functor destroyed exactly once per completion on every path), R-REFBAL (predecessor / inner-core '
              'reference balance derived from the CoreType bits), R-DELETE (delete / frame destruction only in the '
              'deleters, deleter only on the zero edge), R-UNIQUEJOB, R-STRATEGY (owning strategies release every input '
-             'on every destructor path), R-CANCEL, R-SHAREDWALK. Absence of leaks / double frees over all '
+             'on every destructor path), R-CANCEL, R-SHAREDWALK, R-AFTERRELEASE (no use of an object after the last '
+             'owned reference was given away, at every DecRef site). Absence of leaks / double frees over all '
              'interleavings is not decided (ownership moves through the callback word at run time).',
         technique='linear-resource typestate per CFG path over all template instantiations + who-may-delete table',
         design='4/C03'),
